@@ -21,6 +21,8 @@ pub struct LifeCfg {
     pub per_site: u8,
     pub pre_send: u8,
     pub pre_recv: u8,
+    /// forced-site mode of the scheduler: 0 = off, else the site (see sched::force)
+    pub force_site: u16,
 }
 
 /// list-changing operations are heavy as injected operations: one per site, small prefix
@@ -34,6 +36,7 @@ pub const LR: LifeCfg = LifeCfg {
     per_site: 1,
     pre_send: 1,
     pre_recv: 1,
+    force_site: 0,
 };
 
 pub const LQ: LifeCfg = LifeCfg {
@@ -46,6 +49,7 @@ pub const LQ: LifeCfg = LifeCfg {
     per_site: 2,
     pre_send: 2,
     pre_recv: 2,
+    force_site: 0,
 };
 
 /// symbolic prefix: ps sends by tx0 (ids 5..), then pr receives on receiver slot 0
@@ -253,6 +257,9 @@ pub fn add_stream<F: Fl, const SIB: bool, const OUTER: usize, const L0: u8, cons
     ledger::reset();
     payload::reset();
     sched::configure(c.depth, c.budget, c.kinds, c.per_site);
+    if c.force_site != 0 {
+        sched::force(c.force_site, 1, [1; 4]);
+    }
     let mut w = World::<F>::new(c.cap);
     set_world::<F>(&mut *w);
     if SIB {
@@ -701,30 +708,34 @@ pub fn churn<F: Fl, const CH: u8, const OUTER: usize>(c: &LifeCfg) {
 // solver-optional), the traffic of the long-lived handles is what runs at its preemption points
 //   CH=1: actor 0: tx1 = tx0.clone(), tx1 sends 3, drop tx1     actor 1: tx0 sends 2, rx0 receives
 //   CH=2: actor 0: rx1 = rx0.clone(), rx1 receives, drop rx1    actor 1: tx0 sends 1, rx0 receives
-pub struct Churn2<F, const CH: u8>(PhantomData<F>);
+pub struct Churn2<F, const CH: u8, const PART: u8>(PhantomData<F>);
 
-impl<F: Fl, const CH: u8> Prog for Churn2<F, CH> {
+// PART 0: clone, use, drop.  PART 1: clone, use (the clone stays).  PART 2: use, drop (cloned during set-up)
+impl<F: Fl, const CH: u8, const PART: u8> Prog for Churn2<F, CH, PART> {
     const NACT: usize = 2;
-    const LEN: [u8; MAXACT] = [3, 2, 0, 0];
+    const LEN: [u8; MAXACT] = [if PART == 0 { 3 } else { 2 }, 2, 0, 0];
     const BASE: [usize; MAXACT] = [0, 4, 0, 0];
     #[inline(always)]
     fn step(a: usize, k: usize) {
-        match (CH, a, k) {
+        let kk = if PART == 2 { k + 1 } else { k };
+        match (CH, a, kk) {
             (1, 0, 0) => op_clone_tx::<F>(0, 0, 1),
             (1, 0, 1) => op_send::<F>(1, 1, 3),
             (1, 0, _) => op_drop_tx::<F>(2, 1),
-            (1, _, 0) => op_send::<F>(4, 0, 2),
-            (1, _, _) => op_recv::<F>(5, 0),
             (_, 0, 0) => op_clone_rx::<F>(0, 0, 1),
             (_, 0, 1) => op_recv::<F>(1, 1),
             (_, 0, _) => op_drop_rx::<F>(2, 1),
-            (_, _, 0) => op_send::<F>(4, 0, 1),
-            (_, _, _) => op_recv::<F>(5, 0),
+            _ => match (CH, k) {
+                (1, 0) => op_send::<F>(4, 0, 2),
+                (1, _) => op_recv::<F>(5, 0),
+                (_, 0) => op_send::<F>(4, 0, 1),
+                (_, _) => op_recv::<F>(5, 0),
+            },
         }
     }
 }
 
-pub fn churn2<F: Fl, const CH: u8>(c: &LifeCfg) {
+pub fn churn2<F: Fl, const CH: u8, const PART: u8>(c: &LifeCfg) {
     ledger::reset();
     payload::reset();
     sched::configure(c.depth, c.budget, c.kinds, c.per_site);
@@ -744,7 +755,14 @@ pub fn churn2<F: Fl, const CH: u8>(c: &LifeCfg) {
         ledger::declare_recv(5, 1, 0);
     }
     prefix::<F>(c);
-    run_concurrent::<Churn2<F, CH>, 0>();
+    if PART == 2 {
+        if CH == 1 {
+            op_clone_tx::<F>(0, 0, 1);
+        } else {
+            op_clone_rx::<F>(0, 0, 1);
+        }
+    }
+    run_concurrent::<Churn2<F, CH, PART>, 0>();
     kani::cover!(sched::st().injected > 0, "an operation ran at a preemption point");
     finish::<F>(&Finish {
         n: c.n,
@@ -864,6 +882,8 @@ life!(c10_bc_sole_o1, hk_c10_bc_sole_o1, Runner<Add<BcB, false, 2, 2>, 1>, add_s
 life!(c10_bc_sole_o0, hk_c10_bc_sole_o0, Runner<Add<BcB, false, 1, 2>, 0>, add_stream::<BcB, false, 0, 1, 2>(&LifeCfg { exact: true, pre_send: 2, pre_recv: 0, ..LQ }));
 life!(c03_bc_addstream_o0_n1, hk_c03_bc_addstream_o0_n1, Runner<Add<BcB, false, 1, 2>, 0>, add_stream::<BcB, false, 0, 1, 2>(&LifeCfg { exact: true, cap: 1, n: 1, pre_send: 1, pre_recv: 0, ..LQ }));
 life!(c10_bc_sib_o1, hk_c10_bc_sib_o1, Runner<Add<BcB, true, 2, 1>, 1>, add_stream::<BcB, true, 1, 2, 1>(&LifeCfg { budget: 3, per_site: 3, ..LQ }));
+// add_stream (always) and then, if the solver says so, the parent's receive run at the k-th shared-memory
+// operation of the producer's send into the full ring, for every k (the last k lie past the end of the send)
 // C11
 life!(c11_bc_drop_last_o1, hk_c11_bc_drop_last_o1, Runner<Rem<BcB, false>, 1>, remove_stream::<BcB, false, true, 1>(&LQ));
 life!(c11_bc_drop_last_o0, hk_c11_bc_drop_last_o0, Runner<Rem<BcB, false>, 0>, remove_stream::<BcB, false, true, 0>(&LifeCfg { per_site: 1, ..LQ }));
@@ -879,10 +899,14 @@ life!(c12_mp_senders_o0, hk_c12_mp_senders_o0, Runner<Churn<MpB, 1>, 0>, churn::
 life!(c12_bc_senders_o0, hk_c12_bc_senders_o0, Runner<Churn<BcB, 1>, 0>, churn::<BcB, 1, 0>(&LifeCfg { pre_send: 1, pre_recv: 1, per_site: 1, ..LQ }));
 life!(c12_mp_consumers_o1, hk_c12_mp_consumers_o1, Runner<Churn<MpB, 2>, 1>, churn::<MpB, 2, 1>(&LifeCfg { pre_send: 2, pre_recv: 1, per_site: 1, ..LQ }));
 life!(c12_bc_consumers_o1, hk_c12_bc_consumers_o1, Runner<Churn<BcB, 2>, 1>, churn::<BcB, 2, 1>(&LifeCfg { pre_send: 2, pre_recv: 1, per_site: 1, ..LQ }));
-life!(c12_mp_senders2, hk_c12_mp_senders2, Runner<Churn2<MpB, 1>, 0>, churn2::<MpB, 1>(&LifeCfg { pre_send: 1, pre_recv: 1, ..LQ }));
-life!(c12_bc_senders2, hk_c12_bc_senders2, Runner<Churn2<BcB, 1>, 0>, churn2::<BcB, 1>(&LifeCfg { pre_send: 1, pre_recv: 1, ..LQ }));
-life!(c12_mp_consumers2, hk_c12_mp_consumers2, Runner<Churn2<MpB, 2>, 0>, churn2::<MpB, 2>(&LifeCfg { pre_send: 2, pre_recv: 1, ..LQ }));
-life!(c12_bc_consumers2, hk_c12_bc_consumers2, Runner<Churn2<BcB, 2>, 0>, churn2::<BcB, 2>(&LifeCfg { pre_send: 2, pre_recv: 1, ..LQ }));
+life!(c12_mp_senders2a, hk_c12_mp_senders2a, Runner<Churn2<MpB, 1, 1>, 0>, churn2::<MpB, 1, 1>(&LifeCfg { pre_send: 1, pre_recv: 1, per_site: 1, ..LQ }));
+life!(c12_mp_senders2b, hk_c12_mp_senders2b, Runner<Churn2<MpB, 1, 2>, 0>, churn2::<MpB, 1, 2>(&LifeCfg { pre_send: 1, pre_recv: 1, per_site: 1, ..LQ }));
+life!(c12_mp_consumers2a, hk_c12_mp_consumers2a, Runner<Churn2<MpB, 2, 1>, 0>, churn2::<MpB, 2, 1>(&LifeCfg { pre_send: 2, pre_recv: 1, per_site: 1, ..LQ }));
+life!(c12_mp_consumers2b, hk_c12_mp_consumers2b, Runner<Churn2<MpB, 2, 2>, 0>, churn2::<MpB, 2, 2>(&LifeCfg { pre_send: 2, pre_recv: 1, per_site: 1, ..LQ }));
+life!(c12_bc_senders2a, hk_c12_bc_senders2a, Runner<Churn2<BcB, 1, 1>, 0>, churn2::<BcB, 1, 1>(&LifeCfg { pre_send: 1, pre_recv: 1, per_site: 1, ..LQ }));
+life!(c12_bc_senders2b, hk_c12_bc_senders2b, Runner<Churn2<BcB, 1, 2>, 0>, churn2::<BcB, 1, 2>(&LifeCfg { pre_send: 1, pre_recv: 1, per_site: 1, ..LQ }));
+life!(c12_bc_consumers2a, hk_c12_bc_consumers2a, Runner<Churn2<BcB, 2, 1>, 0>, churn2::<BcB, 2, 1>(&LifeCfg { pre_send: 2, pre_recv: 1, per_site: 1, ..LQ }));
+life!(c12_bc_consumers2b, hk_c12_bc_consumers2b, Runner<Churn2<BcB, 2, 2>, 0>, churn2::<BcB, 2, 2>(&LifeCfg { pre_send: 2, pre_recv: 1, per_site: 1, ..LQ }));
 // C13
 life!(c13_mp_one, hk_c13_mp_one, Idle, no_receivers::<MpB, 1, false, true>(2));
 life!(c13_mp_two_handles, hk_c13_mp_two_handles, Idle, no_receivers::<MpB, 2, true, true>(2));
